@@ -138,6 +138,59 @@ theorem C18_distinct_repaired : DistinctStatement .repaired := by
   intro H st par es hwf hh hcl hc e1 e2 n1 n2 h1 h2 hn
   exact C18_distinct_partial .repaired H st par es hwf hh hcl (C18_repaired_print_injective es hc) e1 e2 n1 n2 h1 h2 hn
 
+/-! ### the operand-printing function as a parameter
+
+`_other_key` decides what of an operand enters the key; everything above is about the two functions the code
+has had.  The same holds for EVERY such function `pr`, as long as it tells the occurring operands apart — and
+fails for one that does not (a size-bounded `repr`). -/
+
+/-- `pr` tells apart the operands that occur in the explored expressions -/
+def PrInjOn (pr : Operand → OpKey) (es : List Expr) : Prop :=
+  ∀ e1 ∈ es, ∀ e2 ∈ es, ∀ o1 ∈ e1.ops, ∀ o2 ∈ e2.ops, pr o1 = pr o2 → o1 = o2
+
+/-- the assumption about `hash`, for the keys made with `pr` -/
+def HashInjWith (H : Key → String) (pr : Operand → OpKey) (es : List Expr) : Prop :=
+  ∀ e1 ∈ es, ∀ e2 ∈ es, H (keyWith pr e1) = H (keyWith pr e2) → keyWith pr e1 = keyWith pr e2
+
+/-- "two different expressions never share a node" when operands are printed by `pr` -/
+def DistinctStatementWith (pr : Operand → OpKey) : Prop :=
+  ∀ (H : Key → String) (st : St) (par : Nat) (es : List Expr), WF st → HashInjWith H pr es → ClsOk es → Coherent es →
+    ∀ e1 e2 n1 n2, (e1, n1) ∈ es.zip (injAllL (labelWith H pr) st par es).2 →
+      (e2, n2) ∈ es.zip (injAllL (labelWith H pr) st par es).2 → n1 = n2 → e1 = e2
+
+/-- distinct operands ⇒ distinct keys ⇒ distinct labels ⇒ distinct nodes, for every printing function that is
+injective on the operands of the history -/
+theorem C18_distinct_printer (pr : Operand → OpKey) (H : Key → String) (st : St) (par : Nat) (es : List Expr)
+    (hwf : WF st) (hh : HashInjWith H pr es) (hcl : ClsOk es) (hc : Coherent es) (hp : PrInjOn pr es)
+    (e1 e2 : Expr) (n1 n2 : Nat)
+    (h1 : (e1, n1) ∈ es.zip (injAllL (labelWith H pr) st par es).2)
+    (h2 : (e2, n2) ∈ es.zip (injAllL (labelWith H pr) st par es).2) (hn : n1 = n2) : e1 = e2 := by
+  have m1 := mem_of_zip h1
+  have m2 := mem_of_zip h2
+  have hl := (share_iffL (labelWith H pr) st par es hwf e1 e2 n1 n2 h1 h2).mp hn
+  have hk := hh e1 m1 e2 m2 (labelWith_inj H pr e1 e2 (hcl e1 m1) (hcl e2 m2) hl).2
+  simp only [keyWith, Key.struct.injEq] at hk
+  obtain ⟨hs, hcls, hm⟩ := hk
+  have hops := map_inj_on pr e1.ops e2.ops (fun a ha b hb => hp e1 m1 e2 m2 a ha b hb) hm
+  have ho := (hc e1 m1 e2 m2).1 hs
+  cases e1; cases e2
+  simp_all
+
+/-- what /repo does (`opKey`: scoped label / type name + full repr) is such a function on coherent histories … -/
+theorem C18_opKey_injective (es : List Expr) (hc : Coherent es) : PrInjOn opKey es :=
+  fun e1 h1 e2 h2 o1 ho1 o2 ho2 h => opKey_inj o1 o2 ((hc e1 h1 e2 h2).2 o1 ho1 o2 ho2) h
+
+/-- … so the statement holds for it (the generic form of `C18_distinct_repaired`: `labelWith H opKey` is
+`label H .repaired`) -/
+theorem C18_distinct_opKey : DistinctStatementWith opKey ∧ (∀ H, labelWith H opKey = label H .repaired) :=
+  ⟨fun H st par es hwf hh hcl hc e1 e2 n1 n2 h1 h2 hn =>
+    C18_distinct_printer opKey H st par es hwf hh hcl hc (C18_opKey_injective es hc) e1 e2 n1 n2 h1 h2 hn,
+   fun _ => rfl⟩
+
+/-- `x["abcdefgh-1"]` and `x["abcdefgh-2"]`: long operands that differ only at the end -/
+def wLongA : Expr := ⟨0, "l__user_input", "GetItem", [.raw "str" "abcdefgh-1" "'abcdefgh-1'"]⟩
+def wLongB : Expr := ⟨0, "l__user_input", "GetItem", [.raw "str" "abcdefgh-2" "'abcdefgh-2'"]⟩
+
 /-- `x[1]` and `x["1"]` on the output `l__user_input` -/
 def wInt : Expr := ⟨0, "l__user_input", "GetItem", [.raw "int" "1" "1"]⟩
 def wStr : Expr := ⟨0, "l__user_input", "GetItem", [.raw "str" "1" "'1'"]⟩
@@ -162,7 +215,7 @@ theorem C18_distinct_witness : ¬ DistinctStatement .pinned := by
   have hl : ∀ H : Key → String, label H .pinned wInt = label H .pinned wStr := by
     intro H; simp only [label, hk]; rfl
   have hres : (injAll (fun _ => "0") .pinned emptySt 0 [wInt, wStr]).2 = [0, 0] := by
-    simp only [injAll]
+    simp only [injAll_cons, injAll_nil]
     rw [inject_new _ _ emptySt 0 wInt (by rfl)]
     rw [inject_found _ _ _ 0 wStr 0 (by rw [← hl]; simp [emptySt])]
     rfl
@@ -181,6 +234,31 @@ theorem C18_distinct_witness : ¬ DistinctStatement .pinned := by
       rcases h1 with rfl | rfl <;> rcases h2 with rfl | rfl <;>
         simp [wInt, wStr, Consistent])
     wInt wStr 0 0 (by rw [hres]; simp) (by rw [hres]; simp) rfl
+  exact absurd this (by decide)
+
+/-- a printer that truncates the repr (here after 8 characters) is not injective, and the statement is FALSE for
+it: the second expression is handed the first one's node -/
+theorem C18_truncating_printer_witness :
+    truncKey 8 (.raw "str" "abcdefgh-1" "'abcdefgh-1'") = truncKey 8 (.raw "str" "abcdefgh-2" "'abcdefgh-2'") ∧
+    ¬ DistinctStatementWith (truncKey 8) := by
+  refine ⟨by decide, fun h => ?_⟩
+  have hk : keyWith (truncKey 8) wLongA = keyWith (truncKey 8) wLongB := by decide
+  have hres : (injAllL (labelWith (fun _ => "0") (truncKey 8)) emptySt 0 [wLongA, wLongB]).2 = [0, 0] := by decide
+  have := h (fun _ => "0") emptySt 0 [wLongA, wLongB] emptySt_WF
+    (by
+      intro e1 h1 e2 h2 _
+      simp only [List.mem_cons, List.not_mem_nil, or_false] at h1 h2
+      rcases h1 with rfl | rfl <;> rcases h2 with rfl | rfl <;> first | rfl | exact hk | exact hk.symm)
+    (by
+      intro e he
+      simp only [List.mem_cons, List.not_mem_nil, or_false] at he
+      rcases he with rfl | rfl <;> decide)
+    (by
+      intro e1 h1 e2 h2
+      simp only [List.mem_cons, List.not_mem_nil, or_false] at h1 h2
+      rcases h1 with rfl | rfl <;> rcases h2 with rfl | rfl <;>
+        simp [wLongA, wLongB, Consistent])
+    wLongA wLongB 0 0 (by rw [hres]; simp) (by rw [hres]; simp) rfl
   exact absurd this (by decide)
 
 /-- every operator method injects the class computing the same Python operation, operands in the same order -/
@@ -318,6 +396,11 @@ def exH : Key → String
   | .flat s => s
   | .struct a b ops => a ++ "|" ++ b ++ "|" ++ toString ops.length
 
+/-- a toy hash that looks at the operands -/
+def exH2 : Key → String
+  | .flat s => s
+  | .struct a b ops => a ++ "|" ++ b ++ "|" ++ "|".intercalate (ops.map fun | .ch s => s | .obj t r => t ++ ":" ++ r)
+
 def exAdd2 : Expr := ⟨1, "a__user_input", "Add", [.raw "int" "2" "2"]⟩
 def exMulB : Expr := ⟨1, "a__user_input", "Multiply", [.chan 2 "b__user_input"]⟩
 def exEs : List Expr := [wAddInt, exAdd2, wAddInt, exMulB, exAdd2]
@@ -348,6 +431,15 @@ example : Coherent [wInt, wStr, wAddInt, exMulB] := by
   rcases h1 with rfl | rfl | rfl | rfl <;> rcases h2 with rfl | rfl | rfl | rfl <;>
     simp [wInt, wStr, wAddInt, exMulB, Consistent]
 example : key .repaired wInt ≠ key .repaired wStr := by decide
+/-- the full-repr printer tells the long operands apart (and a coherent history with them exists) -/
+example : opKey (.raw "str" "abcdefgh-1" "'abcdefgh-1'") ≠ opKey (.raw "str" "abcdefgh-2" "'abcdefgh-2'") := by decide
+example : Coherent [wLongA, wLongB] ∧ PrInjOn opKey [wLongA, wLongB] := by
+  have hc : Coherent [wLongA, wLongB] := by
+    intro e1 h1 e2 h2
+    simp only [List.mem_cons, List.not_mem_nil, or_false] at h1 h2
+    rcases h1 with rfl | rfl <;> rcases h2 with rfl | rfl <;> simp [wLongA, wLongB, Consistent]
+  exact ⟨hc, C18_opKey_injective _ hc⟩
+example : (injAllL (labelWith exH2 opKey) emptySt 0 [wLongA, wLongB, wLongA]).2 = [0, 1, 0] := by decide
 /-- the slice form: `x[c:4]` makes a Slice node and a GetItem node, and again reuses both -/
 example :
     let r := getitemSlice exH .pinned emptySt (some 0) 0 "s__user_input"
@@ -367,6 +459,10 @@ end PwVerif.C18
 #print axioms PwVerif.C18.C18_distinct_partial
 #print axioms PwVerif.C18.C18_repaired_print_injective
 #print axioms PwVerif.C18.C18_distinct_repaired
+#print axioms PwVerif.C18.C18_distinct_printer
+#print axioms PwVerif.C18.C18_opKey_injective
+#print axioms PwVerif.C18.C18_distinct_opKey
+#print axioms PwVerif.C18.C18_truncating_printer_witness
 #print axioms PwVerif.C18.C18_pinned_not_injective
 #print axioms PwVerif.C18.C18_distinct_witness
 #print axioms PwVerif.C18.C18_dispatch
